@@ -48,6 +48,7 @@ inline void fail_mid( std::string const& sig, std::string const& msg )
 #if defined(__SANITIZE_ADDRESS__)
 extern "C" __attribute__((used)) void __asan_on_error()
 {
+    if ( getenv( "CDSMC_ASAN_REPORT" )) return;     // diagnosis: let AddressSanitizer print its report and abort (use with --replay)
     std::string sig = vh::property() + ":asan";
     cds_verif::fail_sig( sig.c_str(), "AddressSanitizer reported a memory error in library code during this execution (see the replay output)" );
 }
